@@ -1,6 +1,6 @@
 """
 Record a verified seeded change under /verif/seeded/<id>/ (patch.diff, demo.py, meta.json).
-usage: seed_record.py <PROP> <variant> <status> <caught_by> [note]
+usage: seed_record.py <PROP> <variant> <status> <caught_by> [note]     (variant "2a" = round 2, variant a)
   status: caught | caught-after-strengthening | caught-no-input | missed
 Reads /tmp/seed-out/<PROP>/<variant>/ and the last seedtest output in /tmp/seedtest-<PROP>-<variant>.log if present.
 """
@@ -8,7 +8,12 @@ import json, os, shutil, sys
 VERIF = os.path.dirname(os.path.dirname(os.path.abspath(__file__)))
 prop, var, status, caught_by = sys.argv[1:5]
 note = sys.argv[5] if len(sys.argv) > 5 else ''
-src = f'/tmp/seed-out/{prop}/{var}'
+rnd = 1
+if len(var) == 2 and var[0].isdigit():
+    rnd, var0 = int(var[0]), var[1]
+    src = f'/tmp/seed-out{rnd}/{prop}/{var0}'
+else:
+    src = f'/tmp/seed-out/{prop}/{var}'
 dst = os.path.join(VERIF, 'seeded', f'{prop}-{var}')
 os.makedirs(dst, exist_ok=True)
 shutil.copy(os.path.join(src, 'patch.diff'), dst)
@@ -16,7 +21,7 @@ shutil.copy(os.path.join(src, 'demo.py'), dst)
 m = json.load(open(os.path.join(src, 'meta.json')))
 log = f'/tmp/seedtest-{prop}-{var}.log'
 meta = {
-    'id': f'{prop}-{var}', 'property': prop,
+    'id': f'{prop}-{var}', 'property': prop, 'round': rnd,
     'origin': 'independent sub-agent given only the property text and a scratch worktree of /repo',
     'summary': m.get('summary'), 'needs_to_manifest': m.get('needs'), 'sites': m.get('sites'),
     'suite_with_change': m.get('suite'),
